@@ -412,6 +412,11 @@ def split_path(path):
     cur = ''
     i = 0
     while i < len(path):
+        if path.startswith('%%', i):
+            # escaped `::` inside a segment (e.g. `impl fmt%%Display for SmtString`)
+            cur += '::'
+            i += 2
+            continue
         if path.startswith('::', i) and depth == 0:
             segs.append(cur.strip())
             cur = ''
